@@ -214,7 +214,22 @@ def analyse(fn, spec):
                     v = T
             elif k == "Subscript":
                 base, idx = nd["ch"]
-                if _is_field(fn, base, spec.rec, spec.storages | spec.rows):
+                bj = fn.strip(base)
+                if collect is not None and nodes[bj]["k"] == "Member" and nodes[bj].get("rec") == spec.rec and nodes[bj]["field"] in spec.strided:
+                    # buf[index * stride] is buf + index * stride
+                    stride = spec.strided[nodes[bj]["field"]]
+                    ij = fn.strip(idx)
+                    if nodes[ij]["k"] == "Bin" and nodes[ij]["op"] == "*":
+                        x, y = nodes[ij]["ch"]
+                        if _is_field(fn, y, spec.rec, {stride}):
+                            collect.append({"node": e, "kind": "offset", "index": x, "state": val.get(x, T), "storage": nodes[bj]["field"]})
+                        elif _is_field(fn, x, spec.rec, {stride}):
+                            collect.append({"node": e, "kind": "offset", "index": y, "state": val.get(y, T), "storage": nodes[bj]["field"]})
+                        else:
+                            collect.append({"node": e, "kind": "offset-nostride", "index": idx, "state": T, "storage": nodes[bj]["field"]})
+                    else:
+                        collect.append({"node": e, "kind": "offset-raw", "index": idx, "state": val.get(idx, T), "storage": nodes[bj]["field"], "raw": True})
+                elif _is_field(fn, base, spec.rec, spec.storages | spec.rows):
                     if collect is not None:
                         collect.append({"node": e, "kind": "subscript", "index": idx, "state": val.get(idx, T), "storage": nodes[fn.strip(base)]["field"]})
             val[e] = v
